@@ -159,10 +159,26 @@ def graph_cases(run, n):
     import numpy as np
     from opcua_tools import UAGraph
     rng = run.rng
+    import docs as D
+    graphs = []
     with minibase.Scratch() as sc:
         d = sc.write(sc.sub("g"), {"a.xml": minibase.DOC_A, "b.xml": minibase.DOC_B})
-        g = UAGraph.from_path(d)
+        graphs.append(UAGraph.from_path(d))
+        # generated graphs with parallel references (same end points, different types) and repeated names
+        for j in range(max(2, n // 8)):
+            gg = D.gen_graph(rng, hostile=False, closed=True, values_ok=False)
+            extra = []
+            for (a, b, t) in gg["refs"][:6]:
+                t2 = D.BASE(rng.choice([35, 46, 47]))
+                if t2 != t:
+                    extra.append((a, b, t2))
+            gg["refs"] = list(dict.fromkeys(gg["refs"] + extra))
+            try:
+                graphs.append(UAGraph.from_path(sc.write(sc.sub("gen%d" % j), D.serialise(rng, gg))))
+            except Exception:  # noqa: BLE001  (construction of generated sets is C11's business)
+                pass
     for k in range(n):
+        g = graphs[k % len(graphs)]
         perm_n = list(range(len(g.nodes)))
         rng.shuffle(perm_n)
         perm_r = list(range(len(g.references)))
